@@ -92,7 +92,7 @@ def _size(c):
 
 
 def _input_of(c):
-    return {k: c[k] for k in ("id", "gen", "hist", "ety", "beh", "gate", "sched", "then", "send_index") if k in c}
+    return {k: c[k] for k in ("id", "gen", "hist", "ety", "beh", "gate", "sched", "then", "send_index", "payload", "clock") if k in c}
 
 
 def run(ctx, prop=None):
